@@ -100,6 +100,8 @@ func (m singleModel) Initialise() (error, TimeSteppingModel, data.ND3Float64, da
 
 		if inputs == nil {
 			inputs = data.NewArray3DFloat64(1, len(desc.Inputs), len(thisInput))
+		} else if len(thisInput) != inputs.Len3() {
+			return errors.New(fmt.Sprintf("Input %s has %d values, expected %d: all inputs must have the same length", p, len(thisInput), inputs.Len3())), nil, nil, nil, warnings
 		}
 
 		inputs.Apply([]int{0, i, 0}, 2, 1, thisInput)
